@@ -349,22 +349,35 @@ class Interp(object):
         return res
 
     def _iter_gencall(self, mname, args, st, f, consumer):
+        """Iterate a generator method of the class: its body is interpreted and every `yield v` hands v to the consumer.  The
+        caller's locals travel inside the generator's frame under a prefix, so what the consumer does to them (counters)
+        survives from one element to the next."""
         m = self.cls.methods.get(mname)
         if m is None:
             raise AbsError("generator %s" % mname)
-        saved = dict(st.loc)
+        PFX = "$c$"
         st = st.fork()
-        st.loc = dict(args)
-        st.loc["__self__"] = m.params[0]
-        stop = {"v": None}
+        frame = dict(args)
+        frame["__self__"] = m.params[0]
+        for k, v in st.loc.items():
+            frame[PFX + k] = v
+        st.loc = frame
+
+        def split(loc):
+            caller = {k[len(PFX):]: v for k, v in loc.items() if k.startswith(PFX)}
+            gen = {k: v for k, v in loc.items() if not k.startswith(PFX)}
+            return caller, gen
 
         def on_yield(st2, v):
-            inner_loc = dict(st2.loc)
-            st2.loc = dict(saved)
+            caller, gen = split(st2.loc)
+            st2.loc = caller
             outs = []
             for o in consumer(st2, v):
                 if o.kind in ("fall", "continue"):
-                    o.st.loc = dict(inner_loc)
+                    merged = dict(gen)
+                    for k, vv in o.st.loc.items():
+                        merged[PFX + k] = vv
+                    o.st.loc = merged
                     outs.append(Out("fall", o.st))
                 else:
                     outs.append(Out("genexit", o.st, o))
@@ -374,7 +387,8 @@ class Interp(object):
             if o.kind == "genexit":
                 res.append(o.val)
             elif o.kind in ("fall", "return"):
-                o.st.loc = dict(saved)
+                caller, _gen = split(o.st.loc)
+                o.st.loc = caller
                 res.append(Out("fall", o.st))
             else:
                 res.append(o)
